@@ -239,7 +239,8 @@ def do_check(prop, tier, args):
     from . import known, runner
     t0 = time.time()
     seed = int(os.environ.get("VERIF_SEED", "0") or 0)
-    tier = os.environ.get("VERIF_TIER", tier) or tier
+    # an explicit --tier wins; VERIF_TIER only fills in when none is given
+    tier = tier or os.environ.get("VERIF_TIER") or "quick"
     workers = int(os.environ.get("VERIF_WORKERS", "0") or 0) or \
         min(16, os.cpu_count() or 1)
     base = seed * 1000003
@@ -422,7 +423,7 @@ def main():
     sub = ap.add_subparsers(dest="cmd")
     c = sub.add_parser("check")
     c.add_argument("--property", required=True)
-    c.add_argument("--tier", default="quick")
+    c.add_argument("--tier", default=None, choices=["quick", "thorough"])
     c.add_argument("--runs", default=None)
     r = sub.add_parser("replay")
     r.add_argument("path")
